@@ -134,9 +134,10 @@ def publish_rules(ctx):
            'the Azks record handed to batch_set is not the incremented snapshot')
     # duplicates and no-op: no effect
     g = ds.transaction_bracket(SubSilent(ctx), 'C01')
-    dup = [x for x in b.guards() if x['fail'] and any(
-        fc[0] == 'rel' and fc[1] == 'ne' and any(has_call(y, 'HashSet::len') for y in fc[2:4]) and any(has_call(y, 'Vec::len') and has_leaf(y, 'updates') for y in fc[2:4])
-        for fc in failconds(b, x))]
+    def dup_pred(fc):
+        return fc[0] == 'rel' and fc[1] == 'ne' and any(has_call(y, 'HashSet::len') for y in fc[2:4]) and \
+            any(has_call(y, 'len') and not has_call(y, 'HashSet::len') and has_leaf(y, 'updates') for y in fc[2:4])
+    dup = [x for x in b.guards() if x['fail'] and any(dup_pred(fc) for fc in failconds(b, x))] or inlined_guards(b, dup_pred)
     emp = decisions(b, lambda fc: fc[0] == 'pred' and fc[1].endswith('Vec::is_empty') and fc[3] is True and any(call_is(m, 'Vec::push') for m in _muts(fc[2][0])))
     begin = find_events(b, 'StorageManager::begin_transaction')
     okd = bool(dup and begin) and edge_dominates(b, (dup[0]['block'], dup[0]['pass'][0][1]), begin[0][0]['pos'][0])
@@ -147,7 +148,8 @@ def publish_rules(ctx):
             for y in fc[2:4]:
                 for c in calls_in(y, 'HashSet::len'):
                     for col in calls_in(arg(c, 0), 'Iterator::collect'):
-                        rty = b.blocks[col[4]]['t'].get('rty', '')
+                        hb = prog.bodies.get(dup[0].get('inlined_from'), b)   # the guard may live in a helper
+                        rty = hb.blocks[col[4]]['t'].get('rty', '') if col[4] < len(hb.blocks) else ''
                         keyed = keyed or (rty.replace(' ', '').startswith(('std::collections::HashSet<akd_core::AkdLabel', 'std::collections::HashSet<akd_core::types::AkdLabel', 'std::collections::HashSet<&akd_core::AkdLabel')))
         okd = keyed
     ctx.ob('C01.P.duplicates', 'RF-ORDER', okd, b.path, '%s:%s' % (b.file, dup[0]['line'] if dup else b.line),
